@@ -1322,7 +1322,7 @@ package queue
 //@ func decodeStringMapJSON
 //@   trusted
 //@ func clampSliceCap
-//@   ensures [C05:clamped_into_0_max] (size <= 0 ==> result == 0) && (size > 0 && (max <= 0 || size <= max) ==> result == size) && (size > 0 && max > 0 && size > max ==> result == max)
+//@   ensures [C05:clamped_into_0_max] ((size <= 0 || max <= 0) ==> result == 0) && (size > 0 && max > 0 && size <= max ==> result == size) && (size > 0 && max > 0 && size > max ==> result == max)
 //@ func (*PostgresStore).requeueExpiredLeasesTx
 //@   requires tx != nil
 //@   modifies txPending
